@@ -8,6 +8,8 @@ import OptreeModel.Model.RegSM
 import OptreeModel.Model.Twins
 import OptreeModel.Model.Ravel
 import OptreeModel.Model.Dataclass
+import OptreeModel.Model.Alias
+import OptreeModel.Generated.Fresh
 import OptreeModel.Generated.Twins
 import OptreeModel.Generated.Hash
 
@@ -388,6 +390,23 @@ def evalOp (st : DriverState) : Sexp → Res Sexp
       let otherDt : Arr := { flat with dtype := if flat.dtype == 8 then 6 else 8 }
       pure (encOk [encArr flat, encR (unravel lib u flat), encR (unravel lib u longer),
                    (match unravel lib u otherDt with | .ok _ => .atom "accepted" | .error e => encErr e)])
+  | .list (.atom "aliashist" :: _subject :: ops) => do
+      let decOp : Sexp → Dec AOp := fun x => match x with
+        | .list [.atom "insp", m] => do pure (.inspect (← decNat m))
+        | .list [.atom "mut", i, .atom "append", x] => do pure (.mutate (← decNat i) (.append (← decNat x)))
+        | .list [.atom "mut", i, .atom "set0", x] => do pure (.mutate (← decNat i) (.set0 (← decNat x)))
+        | .list [.atom "mut", i, .atom "clear"] => do pure (.mutate (← decNat i) .clear)
+        | .list [.atom "mut", i, .atom "reverse"] => do pure (.mutate (← decNat i) .reverse)
+        | .list [.atom "mut", i, .atom "pop"] => do pure (.mutate (← decNat i) .pop)
+        | _ => .error "alias op expected"
+      let ops ← Res.ofDec (decList decOp ops)
+      -- method m copies iff T-fresh says so; method m reads internal container m
+      let flags := Generated.handoutFresh.map (·.2)
+      let fresh : Nat → Bool := fun m => flags.getD m false
+      let internals := List.range flags.length
+      let s0 := aInit flags.length
+      let s1 := arun fresh internals s0 ops
+      pure (encOk [.atom (if observe internals s1 == observe internals s0 then "same" else "changed")])
   | .list (.atom "dcpart" :: isClass :: already :: nsEmpty :: fields) => do
       let decField : Sexp → Dec FieldSpec := fun x => match x with
         | .list [.str n, i, p] => do let i ← decBool i; let p ← decBool p; pure ⟨n, i, p⟩
